@@ -15,8 +15,15 @@ import (
 )
 
 func verifC06Msg(prefix string) (*verifMsg, *verifMsg) {
-	p := zv.Bytes(prefix+"payload", zv.Param("payloadcap", 2))
-	d := zv.Bytes(prefix+"detail", 1)
+	var p, d []byte
+	if zv.Param("fixedlen", 0) == 1 {
+		// quick tier: lengths fixed, contents symbolic
+		p = zv.BytesN(prefix+"payload", zv.Param("payloadcap", 2))
+		d = zv.BytesN(prefix+"detail", 1)
+	} else {
+		p = zv.Bytes(prefix+"payload", zv.Param("payloadcap", 2))
+		d = zv.Bytes(prefix+"detail", 1)
+	}
 	c := zv.Int32(prefix + "count")
 	mk := func() *verifMsg {
 		return &verifMsg{Payload: append([]byte(nil), p...), Count: c,
@@ -97,6 +104,7 @@ func Verif_C06_Unary() {
 
 // Verif_C06_Stream: the same for stream sends and receives in both directions.
 func Verif_C06_Stream() {
+	mtd := []string{"S", "R"}[zv.Choose("method", 2)]
 	c2s, c2sSnap := verifC06Msg("c2s-")
 	s2c, s2cSnap := verifC06Msg("s2c-")
 	hooks := &verifHooks{}
@@ -118,7 +126,7 @@ func Verif_C06_Stream() {
 	ch := verifC06Channel(hooks)
 	ctx, cancel := context.WithCancel(context.Background())
 	defer cancel()
-	cs, err := ch.NewStream(ctx, zzfix.StreamDescOf("S"), "/a/S")
+	cs, err := ch.NewStream(ctx, zzfix.StreamDescOf(mtd), "/a/"+mtd)
 	if err != nil {
 		zv.Fail("stream-created")
 		return
